@@ -17,6 +17,11 @@
 (*   Inv_TamperRefused     no case the algebra condemns (must_fail) is     *)
 (*                         accepted by the transcribed finalize            *)
 (*   Inv_Reply             every applicable case gets as far as a reply    *)
+(*   Inv_Reserved/Inv_Retry/Inv_RetrySucceeds  two deliveries: after a     *)
+(*                         refused reply the genuine one is delivered; it  *)
+(*                         finalizes, the result is valid and exact, spends*)
+(*                         exactly what the wallet has locked for the slate*)
+(*                         and leaves one live TxSent entry                *)
 (* and prints every case with the algebra's verdict and the transcription's*)
 (* prediction as JSON (tag CASE): the stimulus for harness/replay_tamper.  *)
 (* With Skip # {} (a check of the code left out) the run is a seeded spec  *)
@@ -56,11 +61,27 @@ Inv_FinalTxValidExact ==
   Predict(c).res = "ok" => ConsensusValid(FinTx) /\ FeeOk(FinTx) /\ Exact(c, FinTx)
 Inv_TamperRefused == ~TamperRefusedBroken(Verdict(c), Predict(c).res)
 
+\* two deliveries: after a refused reply the reply the counterparty really sent is delivered
+Fin2 == TwoDelivery(c).fin
+Inv_Reserved == Predict(c).res = "ok" => ReservedExact(c, Exchange(c).fin.a)
+Inv_Retry ==
+  TwoDelivery(c).retried =>
+    /\ ~TamperRefusedBroken(Verdict2(c), Predict2(c).res)
+    /\ Predict2(c).res = "ok" => /\ ConsensusValid(Fin2.tx) /\ FeeOk(Fin2.tx) /\ Exact(c, Fin2.tx)
+                                 /\ ReservedExact(c, Fin2.a)
+\* the algebra says the genuine reply is fine: the retry must succeed - except in the one situation where the
+\* refused reply made lock_tx_context itself fail AFTER the selection was stored (late lock, a proof added to a
+\* send that asked for none): the context then names change outputs that were never written
+Dev_LateLockResidue == c.flow = "late" /\ "pp_add" \in {c.tamper, c.tamper2}
+Inv_RetrySucceeds ==
+  TwoDelivery(c).retried /\ Verdict2(c) = "may_fail" /\ c.stage = "post" /\ ~Dev_LateLockResidue => Predict2(c).res = "ok"
+
 \* counter-examples of a seeded mutant are printed, not stopped at
 Mutant_Report ==
   IF TamperRefusedBroken(Verdict(c), Predict(c).res)
      \/ (Predict(c).res = "ok" /\ ~(ConsensusValid(FinTx) /\ FeeOk(FinTx) /\ Exact(c, FinTx)))
      \/ (c.tamper = "none" /\ Predict(c).res # "ok")
+     \/ ~Inv_Retry \/ ~Inv_Reserved
   THEN PrintT(<<"MUTCEX", ToJson([flow |-> c.flow, stage |-> c.stage, tamper |-> c.tamper, tamper2 |-> c.tamper2, nch |-> c.nch, nin |-> c.nin])>>)
   ELSE TRUE
 
@@ -68,5 +89,6 @@ EmitCase ==
   IF ~Emit THEN TRUE
   ELSE PrintT(<<"CASE", ToJson([flow |-> c.flow, nin |-> c.nin, nch |-> c.nch, incfee |-> c.incfee, proof |-> c.proof,
                                 stage |-> c.stage, tamper |-> c.tamper, tamper2 |-> c.tamper2,
-                                verdict |-> Verdict(c), predict |-> Predict(c).res, why |-> Predict(c).why])>>)
+                                verdict |-> Verdict(c), predict |-> Predict(c).res, why |-> Predict(c).why,
+                                verdict2 |-> Verdict2(c), predict2 |-> Predict2(c).res, why2 |-> Predict2(c).why])>>)
 =============================================================================
